@@ -313,7 +313,13 @@ def run_case(case: dict[str, Any]) -> CaseOut:
                     names[to] = names.pop(nm)
                     for x in kids:
                         names[to + x[len(nm):]] = names.pop(x)
+                    # implied names below the old name move along
+                    for x in [y for y in maybe if y.startswith(nm + '/')]:
+                        maybe.discard(x)
+                        maybe.add(to + x[len(nm):])
                     maybe.update(x for x in _ancestors(to) if x not in names)
+                    for y in kids:
+                        maybe.update(_ancestors(to + y[len(nm):]))
                     maybe -= set(names)
                     # messages, UIDs and UIDVALIDITY moved along
                     for x in [to] + [to + y[len(nm):] for y in kids]:
